@@ -49,3 +49,17 @@ Theorem C06_vexpr_error_class :
   forall o e x, raises_ok e = true -> run_vexpr o e = Err x -> x = TypeError \/ x = ValueError.
 Proof. exact vexpr_error_class. Qed.
 Print Assumptions C06_vexpr_error_class.
+
+(* validate() = all flat rules of the translated validators + all hand-modelled validators *)
+From PM Require Import Proofs.RuleSem Proofs.SpecRules.
+Theorem C06_validate_iff_rules : forall ct ms o,
+  run_validators ct ms o = Ok tt <->
+  Forall (rule_holds o) (rules_of ms) /\
+  Forall (fun q => match ct q with Some f => f o = Ok tt | None => False end) (customs_of ms).
+Proof. exact run_validators_iff. Qed.
+Print Assumptions C06_validate_iff_rules.
+
+(* obligation on the regenerated validator table: class by class it flattens to exactly the documented rules *)
+Theorem C06_regenerated_rules_are_the_documented_ones : rules_match_documentation = true.
+Proof. vm_compute. reflexivity. Qed.
+Print Assumptions C06_regenerated_rules_are_the_documented_ones.
